@@ -235,3 +235,42 @@ Proof. rewrite (pat_cmp_antisym p q). destruct (pat_cmp p q); simpl; split; cong
 
 Lemma pat_cmp_lt_neq p q : pat_cmp p q = Lt -> p <> q.
 Proof. intros H E. subst. rewrite pat_cmp_refl in H. discriminate. Qed.
+
+Lemma list_eqb_sym {A} (eqb : A -> A -> bool) : (forall x y, eqb x y = eqb y x) ->
+  forall a b, list_eqb eqb a b = list_eqb eqb b a.
+Proof.
+  intros H a. induction a as [|x a IH]; intros [|y b]; simpl; try reflexivity.
+  rewrite (H x y), IH. reflexivity.
+Qed.
+
+Lemma str_eqb_sym a b : str_eqb a b = str_eqb b a.
+Proof. apply list_eqb_sym. intros x y. apply Ascii.eqb_sym. Qed.
+
+Lemma str_eqb_refl a : str_eqb a a = true.
+Proof. apply str_eqb_eq. reflexivity. Qed.
+
+Lemma keys_compat_sym a b : keys_compat a b = keys_compat b a.
+Proof.
+  unfold keys_compat.
+  destruct (parse_expr a) as [[p ka]|]; destruct (parse_expr b) as [[q kb]|]; try reflexivity.
+  rewrite (pat_eqb_sym p q). destruct (pat_eqb q p) eqn:E; simpl; [|reflexivity].
+  apply pat_eqb_eq in E. subst q.
+  destruct (ends_catchall p); [apply str_eqb_sym | apply list_eqb_sym; apply str_eqb_sym].
+Qed.
+
+Lemma keys_compat_refl a : keys_compat a a = true.
+Proof.
+  unfold keys_compat. destruct (parse_expr a) as [[p ka]|]; [|reflexivity].
+  rewrite pat_eqb_refl. simpl. destruct (ends_catchall p); [apply str_eqb_refl|].
+  apply list_eqb_spec; [apply str_eqb_eq | reflexivity].
+Qed.
+
+(** expressions with different patterns (or an invalid one) are compatible *)
+Lemma keys_compat_diff a b : pat_of a <> pat_of b \/ pat_of a = None -> keys_compat a b = true.
+Proof.
+  unfold keys_compat, pat_of.
+  destruct (parse_expr a) as [[p ka]|]; [|reflexivity].
+  destruct (parse_expr b) as [[q kb]|]; [|reflexivity].
+  intros [H|H]; [|discriminate].
+  destruct (pat_eqb p q) eqn:E; [|reflexivity]. apply pat_eqb_eq in E. subst. congruence.
+Qed.
